@@ -17,21 +17,24 @@ LEVEL_TEXT = (
     " tracker's state is what its own interpreted constructor and a first evaluate([rank 5]) leave behind (so "
     "anything cached next to the best is modelled too), then 18 scenarios (no best / a best of rank 5, batches of"
     " two individuals with ranks in {3,5,7}^2) plus batches whose first aggregate is -inf (the worst possible "
-    "individual is still the first best), is_better(a, b) := rank(a) > rank(b)): after each batch the stored best"
-    " and the is_best flags given to the recorders are those of the reference semantics (replace and report "
-    "exactly when there is no best yet or the new one is strictly better than the *current* best); multi-"
-    "objective - fronts of 0..2 individuals x batches of 1..2: the front is replaced only under the flag "
-    "reported, by [new] + {old not dominated by new}. (R2) Problem.is_better is a strict '>' on the maximising "
-    "aggregate in the right argument order (the literal comparison, or - for any other spelling - a truth table "
-    "over aggregates (3,5), (5,3), (5,5), (-inf,5), (5,-inf) obtained by interpreting it), and single-objective "
-    "Problem classes (interpreted with a symbolic fitness function) yield -v exactly when minimising. (R3) every "
-    "search() returns the tracker's best on every exit (helper chains followed; a return value that does not come"
-    " from the tracker at all - a local incumbent, a population member - is a finding); the trackers' aggregate "
-    "views of a stored best (get_best_individuals and the like) are interpreted on the heap the R1 model ends "
-    "with. (R4) every call of Evaluator.evaluate / evaluate_async is made by a ProgressTracker, so no evaluation "
-    "escapes the comparison. (R5) every evaluate_async, interpreted on ten batches, hands back every presented "
-    "individual, cached or not. With strict is_better the invariant 'best = first individual attaining the "
-    "maximum aggregate so far' is inductive; NaN fitness values are outside the decided clause."
+    "individual is still the first best) and batches that present the same object again (the incumbent re-"
+    "registered, one individual twice: identity with the stored best is not an improvement), is_better(a, b) := "
+    "rank(a) > rank(b)): after each batch the stored best and the is_best flags given to the recorders are those "
+    "of the reference semantics (replace and report exactly when there is no best yet or the new one is strictly "
+    "better than the *current* best); multi-objective - fronts of 0..2 individuals x batches of 1..2: the front "
+    "is replaced only under the flag reported, by [new] + {old not dominated by new}. (R2) Problem.is_better is a"
+    " strict '>' on the maximising aggregate in the right argument order (the literal comparison, or - for any "
+    "other spelling - a truth table over thirteen pairs of aggregates - (3,5), (5,3), (5,5), (-inf,5), (5,-inf) "
+    "and pairs closer than any tolerance such as 1e12+147 / 1e12+109 or 1+1e-10 / 1 - obtained by interpreting "
+    "it), and single-objective Problem classes (interpreted with a symbolic fitness function) yield -v exactly "
+    "when minimising. (R3) every search() returns the tracker's best on every exit (helper chains followed; a "
+    "return value that does not come from the tracker at all - a local incumbent, a population member - is a "
+    "finding); the trackers' aggregate views of a stored best (get_best_individuals and the like) are interpreted"
+    " on the heap the R1 model ends with. (R4) every call of Evaluator.evaluate / evaluate_async is made by a "
+    "ProgressTracker, so no evaluation escapes the comparison. (R5) every evaluate_async, interpreted on ten "
+    "batches, hands back every presented individual, cached or not. With strict is_better the invariant 'best = "
+    "first individual attaining the maximum aggregate so far' is inductive; NaN fitness values are outside the "
+    "decided clause."
 )
 
 
